@@ -8,7 +8,11 @@ Round 3 (deepening): the glue between Python operators and expressions (Model/Sy
 `C16_overload_sem`, `C16_overload_dispatch`, `C16_shape_evaluate`, `C16_simplify_guard`, `C16_eq_hash`;
 parser / tokenizer totality with the linear fuel bound: `C16_parser_total`; the tokenizer over an
 arbitrary character classification (Model/SymLexU.lean): `C16_tokenize_classes`; SymPy's surface
-forms (Model/SymExprSympy.lean): `C16_print_parse_sympy`.
+forms (Model/SymExprSympy.lean): `C16_print_parse_sympy_partial`.
+Wave 4: the evaluation half of the SymPy-surface theorem, `sqrt` spellings and Rational exponents
+included: `C16_print_parse_sympy` (supersedes `C16_print_parse_sympy_partial`); bool operands of the
+overloads (`isinstance(True, int)`): `C16_overload_dispatch_bool`; symbolic negative exponents in a
+denominator (`M/K**N`): `C16_print_parse_sympy_symexp`.
 Still outside every theorem (tested on every run): SymPy's construction / automatic simplification /
 `subs` / `simplify` (that the object SymPy holds means what the operator tree means), CPython's
 Unicode tables and operator dispatch.
@@ -23,6 +27,7 @@ import IrVerif.Lemmas.SymExprLex
 import IrVerif.Lemmas.SymDim
 import IrVerif.Lemmas.SymLexU
 import IrVerif.Lemmas.SymExprSympy
+import IrVerif.Lemmas.SymExprSympyEval
 namespace IrVerif.SymExpr
 
 /-- **C16_partial**: binding some symbols first and the rest later gives the value of binding
@@ -550,12 +555,11 @@ example : tokenizeK (fun c => if c = '½' then .numeric else asciiClass c) ['½'
     `2*(Mod(N, 3))`; `_print_Pow` `1/N`, `2**(-N)`, `(N + 1)**2`; `floor ceiling Abs sign Mod Max Min`
     calls) from the SymPy object `s` (external; `SWf` = the canonical-form facts used, decidable,
     evaluated on every generated case).  Proved: the model parser accepts that text and returns
-    exactly the tree `surf s`.  PARTIAL — what is missing for the full statement "parse (ppSympy s)
-    evaluates like s": `∀ env, eval env (surf s) = eval env (sden s)` (that reading `-3*N/4` as
-    `((-3)*N)/4`, `a - b` for `a + (-b)`, `x/(c*d)` for `x * c**-1 * d**-1` ... preserves the exact
-    value, `none` cases included) is NOT proved; it is computed exactly on both sides by the model
-    and compared on every run (driver `sym.sympy_pp`: `vals_parsed` = `vals_den`), together with
-    token-exactness of `ppSympy` against the real `str()`. -/
+    exactly the tree `surf s`.  PARTIAL by name only since wave 4: the half that was missing,
+    `∀ env, eval env (surf s) = eval env (sden s)`, is proved in `Lemmas/SymExprSympyEval.lean` and
+    the full statement is `C16_print_parse_sympy` below (this theorem is kept unchanged; `SWf` now
+    also admits the `sqrt` spellings and Rational exponents).  Token-exactness of `ppSympy` against
+    the real `str()` is compared on every run (driver `sym.sympy_pp`). -/
 theorem C16_print_parse_sympy_partial (s : SExpr) (h : SWf s) :
     parseTokens (ppSympy s) = some (surf s) :=
   parse_ppSympy_surf s h
@@ -570,5 +574,110 @@ example : ppSympy (.add [.mul [.rat 1 2, .sym "N"], .rat 1 2]) =
 example : ppSympy (.mul [.int 2, .fn .mod [.sym "N", .int 3]]) =
     [.num 2, .op .star, .lparen, .ident "Mod", .lparen, .ident "N", .comma, .num 3, .rparen, .rparen] := by
   decide
+
+/-! ## Wave 4 -/
+
+/-- **C16_print_parse_sympy** (completes `C16_print_parse_sympy_partial`): the exact surface text
+    SymPy's `str()` emits for this fragment parses back to an expression with the same evaluations.
+    For every well-formed SymPy tree `s` (`SWf`: the canonical-form facts, decidable, evaluated on
+    every generated case) the model parser accepts the text `ppSympy s` (the token-by-token
+    transcription of StrPrinter, compared with the real `str()` on every run) and the tree it
+    returns evaluates, under EVERY binding - complete, partial (unbound symbols: no value on both
+    sides), zero and negative values included - exactly like the meaning `sden s` of the SymPy
+    object: reading `-3*N/4` as `((-3)*N)/4`, `a - b` for `a + (-b)`, `x/(c*d)` for
+    `x * c**-1 * d**-1`, `1/N` for `N**-1`, `M/N**2` for `M * N**-2` (no value on both sides at
+    `N = 0`) preserves the exact value.  Wave 4 also brings the `sqrt` spellings and Rational
+    exponents inside `SWf`: `sqrt(N)`, `1/sqrt(N)`, `M/sqrt(N)`, `N**(1/3)`, `M/N**(2/3)`
+    (`Pow(b, 1/2)` means the model's `sqrt`, exact when the value is a rational square). -/
+theorem C16_print_parse_sympy (s : SExpr) (h : SWf s) :
+    ∃ t, parseTokens (ppSympy s) = some t ∧ ∀ env : Env, eval env t = eval env (sden s) :=
+  ⟨surf s, parse_ppSympy_surf s h, fun env => eval_surf s h env⟩
+
+/-- the hypothesis holds on the new shapes; the meaning of `1/sqrt(N)` at `N = 4` is `1/2`, and
+    `M/N**2` has no value at `N = 0` on either side -/
+example : SWf (.mul [.sym "M", .pow (.sym "N") (.rat (-1) 2)]) := by decide
+example : ppSympy (.mul [.sym "M", .pow (.sym "N") (.rat (-1) 2)]) =
+    [.ident "M", .op .slash, .ident "sqrt", .lparen, .ident "N", .rparen] := by decide
+example : sden (.pow (.sym "N") (.rat (-1) 2)) = .bin .div (.num 1) (.un .sqrt (.sym "N")) := by decide
+example : eval (Env.ofList [("N", 0), ("M", 3)]) (surf (.mul [.sym "M", .pow (.sym "N") (.int (-2))]))
+    = none := by decide +kernel
+example : eval (Env.ofList [("N", 0), ("M", 3)]) (sden (.mul [.sym "M", .pow (.sym "N") (.int (-2))]))
+    = none := by decide +kernel
+
+/-- **C16_print_parse_sympy_symexp**: symbolic negative exponents in a denominator.  SymPy prints
+    `M * K**(-N)` as `M/K**N` (`apow` in `_print_Mul`: every power whose exponent has a negative
+    coefficient goes below the fraction bar with the exponent negated: `M/K**(2*N)`, `M/K**(N/2)`);
+    `SWfX` is `SWf` without the restriction to literal exponents there.  The parser accepts these
+    texts as well and returns `surf s`, and the tree evaluates like the SymPy object's meaning under
+    every binding that makes no such denominator's BASE zero (`denNZ env s`, decidable, evaluated per
+    case and binding): `0**(positive)` is `0` but `1/0**(negative)` has no value, so at a zero base
+    the strict evaluator distinguishes the two readings (last example below) - for the symbols the
+    parser creates (positive integers) a base that is a symbol, product or power of symbols is never
+    zero.  With literal exponents (`SWf`) the side condition holds under every binding, which gives
+    `C16_print_parse_sympy` back. -/
+theorem C16_print_parse_sympy_symexp (s : SExpr) (h : SWfX s) :
+    ∃ t, parseTokens (ppSympy s) = some t ∧
+      (∀ env : Env, denNZ env s = true → eval env t = eval env (sden s)) ∧
+      (SWf s → ∀ env : Env, denNZ env s = true) ∧
+      (SWf s → SWfX s) :=
+  ⟨surf s, parse_ppSympy_surfX s h, fun env hnz => eval_surfX s h env hnz,
+    fun hs env => swf_denNZ env s hs, swf_imp_swfX s⟩
+
+/-- `M * K**(-N)`: outside `SWf`, inside `SWfX`, printed `M/K**N`; the side condition holds for
+    `K = 3` and fails for `K = 0`, where (with `N = -2`) the meaning is `M * 0**2 = 0` and the text
+    `M/0**(-2)` has no value -/
+example : swf (.mul [.sym "M", .pow (.sym "K") (.mul [.int (-1), .sym "N"])]) = false := by decide
+example : SWfX (.mul [.sym "M", .pow (.sym "K") (.mul [.int (-1), .sym "N"])]) := by decide
+example : ppSympy (.mul [.sym "M", .pow (.sym "K") (.mul [.int (-1), .sym "N"])]) =
+    [.ident "M", .op .slash, .ident "K", .op .dstar, .ident "N"] := by decide
+example : denNZ (Env.ofList [("M", 5), ("K", 3), ("N", 2)])
+    (.mul [.sym "M", .pow (.sym "K") (.mul [.int (-1), .sym "N"])]) = true := by decide +kernel
+example : denNZ (Env.ofList [("M", 5), ("K", 0), ("N", -2)])
+    (.mul [.sym "M", .pow (.sym "K") (.mul [.int (-1), .sym "N"])]) = false := by decide +kernel
+example : eval (Env.ofList [("M", 5), ("K", 0), ("N", -2)])
+    (sden (.mul [.sym "M", .pow (.sym "K") (.mul [.int (-1), .sym "N"])])) = some 0 := by
+  decide +kernel
+example : eval (Env.ofList [("M", 5), ("K", 0), ("N", -2)])
+    (surf (.mul [.sym "M", .pow (.sym "K") (.mul [.int (-1), .sym "N"])])) = none := by
+  decide +kernel
+
+/-- **C16_overload_dispatch_bool**: Python's bool-as-int in the overload dispatch.  `True` / `False`
+    are `int`s for `isinstance(other, int)`, so a bool operand goes down the `int` branches of every
+    overload, on either side (`True + N` reaches `__radd__`, which delegates to `__add__`): the
+    unknown dimension absorbs it, an unparseable text raises ValueError, exactly as with an `int`;
+    next to a known dimension SymPy's own operator refuses the bool - TypeError for every operator on
+    either side - except `dim / bool`, which the code computes as `Rational(1, other) * expr`: the
+    tree of `dim / 1` resp. `dim / 0`, evaluating like the dimension itself resp. never.  Hence:
+    wherever a bool operand is accepted at all, the result is the result for the `int` it is
+    (together with `C16_overload_dispatch`, whose `Operand` now ranges over bools too, this decides
+    every mix of int / bool / dimension / foreign operands). -/
+theorem C16_overload_dispatch_bool (o : BOp) (b : Bool) (a : Expr) (x : Operand) (d : Dim) :
+    (o ≠ .pow →
+      binop o (.dim .unknown) (.bool b) = .ok .unknown ∧
+      binop o (.bool b) (.dim .unknown) = .ok .unknown ∧
+      binop o (.dim .bad) (.bool b) = .valueError ∧
+      binop o (.bool b) (.dim .bad) = .valueError) ∧
+    (o ≠ .truediv → binop o (.dim (.expr a)) (.bool b) = .typeError) ∧
+    binop o (.bool b) (.dim (.expr a)) = .typeError ∧
+    (binop .truediv (.dim (.expr a)) (.bool b) =
+        binop .truediv (.dim (.expr a)) (.int (boolInt b)) ∧
+      binop .truediv (.dim (.expr a)) (.bool b) =
+        .ok (.expr (fwdTreeInt .truediv a (boolInt b))) ∧
+      ∀ env, eval env (fwdTreeInt .truediv a (boolInt true)) = eval env a ∧
+        eval env (fwdTreeInt .truediv a (boolInt false)) = none) ∧
+    (binop o x (.bool b) = .ok d → binop o x (.int (boolInt b)) = .ok d) ∧
+    (binop o (.bool b) x = .ok d → binop o (.int (boolInt b)) x = .ok d) ∧
+    (Operand.bool b).accepted = false := by
+  refine ⟨fun ho => binop_bool_absorb o ho b, (binop_bool_refused o b a).1, (binop_bool_refused o b a).2,
+    ⟨binop_bool_truediv b a, rfl, fun env => eval_truediv_bool env a⟩,
+    (binop_bool_as_int o b x d).1, (binop_bool_as_int o b x d).2, rfl⟩
+
+/-- both behaviours occur: `N / True` is a dimension, `N + True` and `True - N` raise TypeError,
+    `SymbolicDim(None) + True` is the unknown dimension -/
+example : binop .truediv (.dim (.expr (.sym "N"))) (.bool true) =
+    .ok (.expr (.bin .mul (.bin .div (.num 1) (.num 1)) (.sym "N"))) := rfl
+example : binop .add (.dim (.expr (.sym "N"))) (.bool true) = .typeError := rfl
+example : binop .sub (.bool true) (.dim (.expr (.sym "N"))) = .typeError := rfl
+example : binop .add (.bool true) (.dim .unknown) = .ok .unknown := rfl
 
 end IrVerif.SymExpr
